@@ -1148,6 +1148,22 @@ func (e *env) call(x *CallE) any {
 			return false
 		}
 		return rv.MapIndex(e.toType(e.eval(x.Args[1]), rv.Type().Key())).IsValid()
+	case "newlines":
+		s, ok := deref(e.eval(x.Args[0])).(string)
+		if !ok || len(x.Args) != 3 {
+			fail("newlines(s, a, b) needs a string and two positions")
+		}
+		a, b := asInt(e.eval(x.Args[1]), x.Args[1]), asInt(e.eval(x.Args[2]), x.Args[2])
+		if a < 0 || b > int64(len(s)) {
+			fail("newlines: range outside the string")
+		}
+		n := int64(0)
+		for i := a; i < b; i++ {
+			if s[i] == 10 {
+				n++
+			}
+		}
+		return n
 	case "umod":
 		a, b := asInt(e.eval(x.Args[0]), x.Args[0]), asInt(e.eval(x.Args[1]), x.Args[1])
 		if b <= 0 {
@@ -1177,7 +1193,7 @@ func (e *env) call(x *CallE) any {
 			i = 1
 		}
 		return norm(addressable(res[i]))
-	case "disjoint":
+	case "disjoint", "otherarray": // otherarray (different backing arrays) is approximated by non-overlap at run time
 		a, b := sliceOf(e.eval(x.Args[0]), x.Args[0]), sliceOf(e.eval(x.Args[1]), x.Args[1])
 		if a.Cap() == 0 || b.Cap() == 0 {
 			return true
